@@ -43,7 +43,7 @@ var c08Msgs = func() [][]byte {
 	return append(msgs, bad1, bad2, bad3)
 }()
 
-var c08DecodeNames = []string{"Decode(data,m)", "Write", "UnmarshalBinary", "ReadFrom", "CloneTo", "ReadFrom(segmented stream: 20 | 10 | rest)"}
+var c08DecodeNames = []string{"Decode(data,m)", "Write", "UnmarshalBinary", "ReadFrom", "CloneTo", "ReadFrom(segmented stream: 20 | 10 | rest)", "ReadFrom(zero-length datagram)"}
 
 // c08Setters: each entry builds the setter list from caller-owned buffers and
 // returns the buffers so that the caller can overwrite them afterwards.
@@ -157,6 +157,9 @@ func c08Apply(m *stun.Message, u int, poison byte) error {
 			m.Raw = make([]byte, 0, len(data)+7)
 		}
 		_, err = m.ReadFrom(&segReader{d: data})
+	case 6:
+		// a packet connection delivers an empty datagram as (0, nil)
+		_, err = m.ReadFrom(&reusableReader{})
 	}
 	scribble(data)
 	return err
@@ -240,16 +243,20 @@ func c08Run(k c08Case) (outcome, key, detail string) {
 					outcome = "failed-use"
 					return
 				}
+				if u < len(c08DecodeNames)*len(c08Msgs) && u/len(c08Msgs) == 6 {
+					key, detail = "leak/"+c08UseKind(u), fmt.Sprintf("reading a zero-length datagram succeeded: the Message still shows %d bytes, %d attributes", len(m.Raw), len(m.Attributes))
+					return
+				}
 				if d := c08Same(m, fresh); d != "" {
 					key, detail = "leak/"+c08UseKind(u), d
 					return
 				}
 				nd := len(c08DecodeNames) * len(c08Msgs)
-				if u < nd && u/len(c08Msgs) != 5 && !bytes.Equal(m.Raw, c08Msgs[u%len(c08Msgs)]) {
+				if u < nd && u/len(c08Msgs) < 5 && !bytes.Equal(m.Raw, c08Msgs[u%len(c08Msgs)]) {
 					key, detail = "input-aliased", fmt.Sprintf("%s: Raw changed when the caller overwrote its input", c08UseName(u))
 					return
 				}
-				if u < nd && u/len(c08Msgs) != 5 {
+				if u < nd && u/len(c08Msgs) < 5 {
 					// absolute check (the fresh twin shares any aliasing bug): after the caller overwrote its input the
 					// decoded content must still be that of the original bytes, and every value must live inside m.Raw
 					want, _ := ref.Parse(c08Msgs[u%len(c08Msgs)])
